@@ -366,9 +366,12 @@ func (e *Executor) execute(ctx context.Context, isRootPlan bool, p *Plan, keys [
 
 	// For every nested query in the plan, execute it on the specified service and stitch
 	// the results into a response
-	for _, currentSubPlan := range p.After {
-		subPlan := currentSubPlan
-		var subPlanMetaData pathSubqueryMetadata
+	//
+	// Extract the keys for all sub-plans before any of them runs: a running
+	// sub-plan stitches its results into the objects the others read their keys from.
+	subPlanMetaDatas := make([]pathSubqueryMetadata, len(p.After))
+	for i, subPlan := range p.After {
+		subPlanMetaData := &subPlanMetaDatas[i]
 		if p.Service == gatewayCoordinatorServiceName {
 			subPlanMetaData.keys = nil // On the root query there are no specified keys
 			// On the root query, there will only be one result since
@@ -382,6 +385,11 @@ func (e *Executor) execute(ctx context.Context, isRootPlan bool, p *Plan, keys [
 				return nil, nil, fmt.Errorf("failed to extract keys %v: %v", subPlan.Path, err)
 			}
 		}
+	}
+
+	for i, currentSubPlan := range p.After {
+		subPlan := currentSubPlan
+		subPlanMetaData := subPlanMetaDatas[i]
 
 		g.Go(func() error {
 			// Execute the subquery on the specified service
